@@ -52,7 +52,7 @@ Definition chk_pie2 (t : ftab) : bool :=
     forallb (fun h => negb (Qle_bool (Qeval (centroid2 (fparent t)) h) 0)) (canon2 (fparent t))
   else true.
 Lemma all_pie2 : forallb chk_pie2 all_ftabs = true.
-Proof. vm_compute. reflexivity. Qed.
+Proof. vm_cast_no_check (eq_refl true). Qed.
 
 Lemma sign2 G c h : (G > 0 -> c > 0 -> (G * (c * h) >= 0 <-> h >= 0))%R.
 Proof.
